@@ -37,7 +37,7 @@ META = {
                   "subject); the correspondence reads it off the real Constraint objects. Violations are modelled in exact arithmetic: zero-ness/"
                   "feasibility is compared on every case, the magnitude only where the float computation is exact (driver-checked with Fractions). "
                   "objectives_roundtrip needs >= 1 objective (with zero objectives every line is blank and is skipped; proved as a separate lemma); "
-                  "the blank-line branch is modelled but not tied (files written by save_objectives contain none). NaN, callable constraints, "
+                  "the blank-line branch is modelled but not tied (files written by save_objectives contain none). Constraints declared by a FUNCTION are modelled as a parameter cfun (arbitrary in the theorems; the correspondence uses six test shapes x-t, t-x, -|x|, x, min(0,x), max(0,x-t)); they can be used or supplied on load, but an algorithm whose problem declares one cannot be written (TypeError, proved as c19_algorithm_callable_raises; such algorithm files are rejected configurations of the driver). NaN, "
                   "infinite thresholds and non-JSON-native variables are outside the property. No axioms (all theorems closed under the global context).",
     "technique": "Coq proof over an abstract JSON tree model + correspondence through real files (vm_compute) + independent oracle + float sweep",
 }
@@ -162,13 +162,57 @@ def dir_lit(d):
     return "Maximize" if d == Direction.MAXIMIZE else "Minimize"
 
 
+# test callables for Constraint(function): (shape, t) as JsonModel.js_shape; key = shape + 8 * index of t
+FN_T = [0.0, 0.25, 0.5, -1.0, 1 / 3, 1234567.0, 0.1]
+FN_SHAPES = 6
+
+
+def _mk_fn(shape, t):
+    if shape == 0:
+        def f(x):
+            return x - t
+    elif shape == 1:
+        def f(x):
+            return t - x
+    elif shape == 2:
+        def f(x):
+            return -abs(x)
+    elif shape == 3:
+        def f(x):
+            return x
+    elif shape == 4:
+        def f(x):
+            return min(0.0, x)
+    else:
+        def f(x):
+            return max(0.0, x - t)
+    f.__name__ = "fn%d_%d" % (shape, FN_T.index(t))
+    f.c19 = (shape + 8 * FN_T.index(t), shape, t)
+    return f
+
+
+FNS = [_mk_fn(sh, t) for t in FN_T for sh in range(FN_SHAPES)]
+
+
+def is_callable_decl(c):
+    return not isinstance(c.op, str)
+
+
+def decl_lit(c):
+    return "(DFun %d)" % c.function.c19[0] if is_callable_decl(c) else "(DOp %s)" % cstr(c.op)
+
+
+def decl_text(c):
+    return c.op if isinstance(c.op, str) else "<function %s>" % getattr(c.function, "__name__", "?")
+
+
 def problem_lit(p, origin):
     return "(mkProblem %s %s %s %s %s %s %s %s %s)" % (
         origin, cstr(type(p).__name__), C.nat_lit(p.nvars), C.nat_lit(p.nobjs), C.nat_lit(p.nconstrs),
         optstr_lit(getattr(p.function, "__name__", None)),
         C.list_lit([optstr_lit(None if t is None else str(t)) for t in arr(p.types)]),
         C.list_lit([dir_lit(d) for d in arr(p.directions)]),
-        C.list_lit([cstr(c.op) for c in arr(p.constraints)]))
+        C.list_lit([decl_lit(c) for c in arr(p.constraints)]))
 
 
 def sol_lit(s):
@@ -198,7 +242,9 @@ def exact_violation(decls, xs):
             return None
         fx, fy = Fraction(x), Fraction(y)
         d = abs(fx - fy)
-        if opn == "JsEq":
+        if isinstance(opn, int):          # callable of shape opn with parameter y
+            t = [d, d, abs(fx), abs(fx), abs(min(Fraction(0), fx)), max(Fraction(0), fx - fy)][opn]
+        elif opn == "JsEq":
             t = d
         elif opn == "JsLeq":
             t = 0 if fx <= fy else d
@@ -286,8 +332,20 @@ def mk_decl(rng, stats=None):
 def decl_of(c):
     """(operator, threshold) the in-memory Constraint object really applies"""
     f = c.function
+    if is_callable_decl(c):
+        return f.c19[1], f.c19[2]        # (shape, t) of a test callable
     assert isinstance(f, functools.partial)
     return OPNAME[f.func.__name__], f.keywords["y"]
+
+
+def build_ftab(problems):
+    """callable key -> (shape, t) for every test callable declared in the given problems"""
+    tab = {}
+    for p in problems:
+        for c in arr(p.constraints):
+            if is_callable_decl(c):
+                tab[c.function.c19[0]] = (c.function.c19[1], c.function.c19[2])
+    return C.list_lit(["(%d, (%d, %s))" % (k, sh, C.xq_lit(t)) for k, (sh, t) in sorted(tab.items())])
 
 
 def build_tab(declared_problems, loaded_problems):
@@ -329,7 +387,17 @@ def loaded_literals(loaded, supplied, dist):
 
 
 def decl_threshold(c):
+    """the float around which a declaration changes its answer"""
+    if is_callable_decl(c):
+        return c.function.c19[2] if c.function.c19[1] in (0, 1, 5) else 0.0
     return c.function.keywords["y"]
+
+
+def mk_callable_decl(rng, stats=None):
+    from platypus import Constraint
+    if stats is not None:
+        stats["callable"] = stats.get("callable", 0) + 1
+    return Constraint(rng.choice(FNS))
 
 
 def gen_types(rng, nvars):
@@ -435,8 +503,11 @@ def gen_scenario(seed, big=False):
         if rng.random() < 0.45:
             p.directions[i] = Direction.MAXIMIZE
     sc.spellings = {}
+    sc.callable_src = nconstrs > 0 and rng.random() < 0.2       # the source problem declares constraints by functions
     for i in range(nconstrs):
-        if rng.random() < 0.85:
+        if sc.callable_src and (i == 0 or rng.random() < 0.5):
+            p.constraints[i] = mk_callable_decl(rng, sc.spellings)
+        elif rng.random() < 0.85:
             p.constraints[i] = mk_decl(rng, sc.spellings)
     sc.problem = p
     sc.kinds = sorted(set(k for k, _ in types))
@@ -458,8 +529,9 @@ def gen_scenario(seed, big=False):
     for i in range(nobjs):
         if rng.random() < 0.5:
             q.directions[i] = Direction.MAXIMIZE
+    fn_other = rng.random() < 0.6            # the problem supplied on load declares (some) constraints by functions
     for i in range(nconstrs):
-        q.constraints[i] = mk_decl(rng)
+        q.constraints[i] = mk_callable_decl(rng) if fn_other and rng.random() < 0.6 else mk_decl(rng)
     sc.other = q
     sc.indent = rng.choice([None, None, 0, 2, 4])
     sc.api = rng.choice(["path-str", "path-pathlib", "path-bytes", "fileobj"])
@@ -641,8 +713,8 @@ def oracle_json(ctx, src, saved_problem, is_algorithm, supplied, loaded, replay,
             va, vb = a.constraint_violation, b.constraint_violation
             if not (isinstance(vb, (int, float)) and bits(float(va)) == bits(float(vb))):
                 bad("json:violation-differs-from-original-problem", "solution %d constraints %r: the in-memory problem %r gave constraint_violation=%r, "
-                    "after load (declarations %r) it is %r" % (i, describe(arr(a.constraints)), [(c.op, decl_threshold(c).hex()) for c in arr(saved_problem.constraints)],
-                                                              describe(va), [c.op for c in arr(b.problem.constraints)], describe(vb)))
+                    "after load (declarations %r) it is %r" % (i, describe(arr(a.constraints)), [(decl_text(c), float(decl_threshold(c)).hex()) for c in arr(saved_problem.constraints)],
+                                                              describe(va), [decl_text(c) for c in arr(b.problem.constraints)], describe(vb)))
             elif bool(a.feasible) != bool(getattr(b, "feasible", None)):
                 bad("json:feasible-differs-from-original-problem", "solution %d: feasible was %r, after load %r" % (i, a.feasible, getattr(b, "feasible", None)))
         if not ok:
@@ -651,8 +723,6 @@ def oracle_json(ctx, src, saved_problem, is_algorithm, supplied, loaded, replay,
     for i, b in enumerate(loaded):
         decls = arr(b.problem.constraints)
         xs = arr(b.constraints)
-        if not all(isinstance(c.op, str) for c in decls):
-            continue
         # total violation = sum of |c_i(x_i)| over the declarations; the order/compensation of the float summation is not
         # part of the property (CPython 3.12's sum() is compensated), so the magnitude is checked against the EXACT sum of
         # the float terms up to 4 ulp, zero-ness and infinity exactly
@@ -675,16 +745,17 @@ def oracle_json(ctx, src, saved_problem, is_algorithm, supplied, loaded, replay,
             exp = "a number"
         if not good:
             bad("json:violation-not-recomputed", "solution %d constraints %r against %r: constraint_violation=%r, declarations give %r" % (
-                i, describe(xs), [c.op for c in decls], describe(v), describe(exp)))
+                i, describe(xs), [decl_text(c) for c in decls], describe(v), describe(exp)))
             continue
         if not hasattr(b, "feasible") or b.feasible != (v == 0.0):
             bad("json:feasible-inconsistent-with-violation", "solution %d: feasible=%r but constraint_violation=%r" % (i, getattr(b, "feasible", None), v))
             continue
         if all(math.isfinite(decl_threshold(c)) for c in decls):
-            holds = all(relation_holds(c.op, x) for c, x in zip(decls, xs))
+            # an operator declaration is satisfied when its relation holds, a function declaration when it returns 0
+            holds = all((c(x) == 0) if is_callable_decl(c) else relation_holds(c.op, x) for c, x in zip(decls, xs))
             if b.feasible != holds:
-                bad("json:feasible-inconsistent-with-declarations", "solution %d: feasible=%r but relations %r on %r %s" % (
-                    i, b.feasible, [c.op for c in decls], describe(xs), "all hold" if holds else "do not all hold"))
+                bad("json:feasible-inconsistent-with-declarations", "solution %d: feasible=%r but declarations %r on %r %s" % (
+                    i, b.feasible, [decl_text(c) for c in decls], describe(xs), "are all satisfied" if holds else "are not all satisfied"))
     return ok
 
 
@@ -715,6 +786,12 @@ def run_json_case(ctx, tmp, sc, writer, loader, big, dist, want_lit=True):
     replay = {"kind": "json", "scenario_seed": sc.seed, "big": big, "writer": writer, "loader": loader}
     tag = "scenario seed=%d writer=%s loader=%s api=%s indent=%r" % (sc.seed, writer, loader, sc.api, sc.indent)
     supplied = {"none": None, "same": sc.problem, "other": sc.other}[loader]
+    if writer.startswith("algorithm") and getattr(sc, "callable_src", False):
+        # a callable declaration has no text: the encoder cannot write such an algorithm (TypeError, modelled as Err EType);
+        # the property speaks about restoring declarations, which is impossible for a function - rejected configuration
+        k = "rejected: algorithm whose problem declares a constraint by a function (save raises TypeError)"
+        dist[k] = dist.get(k, 0) + 1
+        return None
     try:
         obj, src = make_saved(sc, writer)
     except Exception as e:      # building the inputs failed: not a statement about io.py
@@ -756,7 +833,8 @@ def run_json_case(ctx, tmp, sc, writer, loader, big, dist, want_lit=True):
     except Exception:
         return None        # something that cannot be abstracted came back; the oracle has already spoken
     oneprob = all(b.problem is loaded[0].problem for b in loaded)
-    return "(K19 %s %s %s %s %s %s)" % (saved, sup, ctab, file_lit, C.list_lit(ls), C.bool_lit(oneprob))
+    ftab = build_ftab([sc.problem, sc.other])
+    return "(K19 %s %s %s %s %s %s %s)" % (saved, sup, ctab, ftab, file_lit, C.list_lit(ls), C.bool_lit(oneprob))
 
 
 def run_objectives_case(ctx, tmp, sc, loader, dist, big):
@@ -899,6 +977,10 @@ def run_live(ctx, tmp, seed, dist, lits):
             sc.seed, sc.problem, sc.sols, sc.kinds = seed, alg.problem, src, [name.split("/")[1]]
             q = Problem(alg.problem.nvars, alg.problem.nobjs, alg.problem.nconstrs)
             q.constraints[:] = ">=0.125"
+            lrng = _random.Random(seed * 31 + len(name))
+            for i in range(q.nconstrs):          # the problem supplied on load declares constraints by functions (signed values)
+                if i % 2 == 0 or lrng.random() < 0.5:
+                    q.constraints[i] = mk_callable_decl(lrng)
             q.directions[:] = Direction.MINIMIZE
             sc.other, sc.indent, sc.api, sc.nfe = q, None, "path-str", alg.nfe
             supplied = {"none": None, "same": sc.problem, "other": sc.other}[loader]
@@ -931,7 +1013,8 @@ def live_literal(ctx, alg, src, supplied, sc, text, loaded, dist):
         ctab = C.list_lit(["(%s, (%s, %s))" % (cstr(op), opn, C.xq_lit(y)) for op, (opn, y) in tab.items()])
         ls = loaded_literals(loaded, supplied, dist)
         oneprob = all(b.problem is loaded[0].problem for b in loaded)
-        return "(K19 %s %s %s %s %s %s)" % (saved, sup, ctab, jlit(parse_plain(text)), C.list_lit(ls), C.bool_lit(oneprob))
+        ftab = build_ftab([sc.problem, sc.other])
+        return "(K19 %s %s %s %s %s %s %s)" % (saved, sup, ctab, ftab, jlit(parse_plain(text)), C.list_lit(ls), C.bool_lit(oneprob))
     except Exception:
         return None
 
@@ -1030,7 +1113,7 @@ def run(ctx):
         shutil.rmtree(tmp, ignore_errors=True)
     ctx.coverage["input_distribution"] = dist
     ctx.rule = ("scenario = random problem (0-4 variables of kinds Real/Binary/Integer(Gray bits)/Permutation of ints or strings/Subset/raw JSON scalars, mixed; "
-                "0-3 objectives min/max; 0-3 constraint declarations in every spelling ('<=0.5', '<= 0.5', Constraint('<=', 0.5), Constraint objects and copies, predefined constants) over a threshold pool with many-digit / extreme floats and ints) + 0-5 solutions (1-39 in the oracle-only stream) with floats from all "
+                "0-3 objectives min/max; 0-3 constraint declarations in every spelling ('<=0.5', '<= 0.5', Constraint('<=', 0.5), Constraint objects and copies, predefined constants, and FUNCTIONS returning signed values x-t, t-x, -|x|, x, min(0,x), max(0,x-t) for problems used or supplied on load) over a threshold pool with many-digit / extreme floats and ints) + 0-5 solutions (1-39 in the oracle-only stream) with floats from all "
                 "classes (random bit patterns, every exponent, subnormals, +-0.0, +-inf, nextafter neighbours, decimal boundaries; constraint values on/next to "
                 "thresholds); each written from list / Archive / algorithm(list result) / algorithm(Archive result) and read with no problem / the same problem / "
                 "another problem of that shape, through save_json/load_json (str, pathlib, bytes paths) or dump/load, indent None/0/2/4; objectives files likewise; "
